@@ -3,5 +3,7 @@ CONSTANTS
   MaxLayout = 3
   MaxFailures = 2
   DrainOnSuccess = TRUE
+  SkipUnchanged = FALSE
+  Strategy = "MASTER"
 INVARIANTS TriggerKept
 CHECK_DEADLOCK FALSE
